@@ -65,7 +65,9 @@ def _history(fe):
                                   'fi': st.integers(0, 3), 'fc': st.integers(2, 4)})
     interest = st.fixed_dictionaries({'op': st.just('interest'), 'name': nm,
                                       'token': st.one_of(st.none(), st.binary(max_size=40).map(bytes.hex),
-                                                         st.binary(min_size=1, max_size=8).map(bytes.hex)),
+                                                         st.binary(min_size=1, max_size=8).map(bytes.hex),
+                                                         # (long opaque tokens: their own Length needs three octets)
+                                                         st.sampled_from([252, 253, 254, 300]).map(lambda n: (b'\xa5' * n).hex())),
                                       'env': _envspec(), 'params': st.sampled_from([False, False, True]),
                                       'life': st.sampled_from([4000, 4000, 4000, 50, 10])})
     reply = st.fixed_dictionaries({'op': st.just('reply'), 'k': st.integers(0, 7),
@@ -111,8 +113,14 @@ def _run(fe, ops, full, r, flags, trace):
 
         def send(pkt, env, token=None, nack=False, reason=None, fi=None, fc=None):
             if full or nack or fi is not None:
-                w = net.lp_wrap(pkt, nack_reason=reason, nack=nack, pit_token=token, extra=_extra(env) if full else (),
-                                frag_index=fi, frag_count=fc)
+                ex = _extra(env) if full else []
+                # every other unassigned header type stands BEHIND the Fragment (ignored there as anywhere else)
+                unknown = [e for e in ex if e[0] not in KNOWN_HEADERS]
+                trail = unknown if sum(e[0] for e in ex) % 2 else [e for i, e in enumerate(ex) if e in unknown and i % 2 == 1]
+                if trail:
+                    flags.add('header-after-fragment')
+                w = net.lp_wrap(pkt, nack_reason=reason, nack=nack, pit_token=token, extra=[e for e in ex if e not in trail],
+                                frag_index=fi, frag_count=fc, trailing=trail)
             elif token is not None:
                 w = net.lp_wrap(pkt, pit_token=token)
             else:
